@@ -71,6 +71,42 @@ func c19Doc(r *rand.Rand, id string) *sbom.Document {
 	return d2
 }
 
+// c19SameSize returns a document that differs from prev in one character and encodes to exactly as many bytes
+// (a version bump from 1.0.1 to 1.0.2): an overwrite that a size-based shortcut would skip. nil when prev has no
+// text to change.
+func c19SameSize(r *rand.Rand, prev *sbom.Document) *sbom.Document {
+	if prev == nil || prev.Metadata == nil {
+		return nil
+	}
+	d := gen.Clone(prev)
+	bump := func(s *string) bool {
+		if n := len(*s); n > 0 && (*s)[n-1] < 0x7f && (*s)[n-1] >= 0x20 {
+			last := (*s)[n-1]
+			repl := byte('0' + r.Intn(10))
+			if repl == last {
+				repl = 'x'
+			}
+			*s = (*s)[:n-1] + string(repl)
+			return true
+		}
+		return false
+	}
+	cands := []*string{&d.Metadata.Version, &d.Metadata.Name, &d.Metadata.Comment}
+	for _, n := range d.GetNodeList().GetNodes() {
+		cands = append(cands, &n.Name, &n.Version)
+	}
+	r.Shuffle(len(cands), func(i, j int) { cands[i], cands[j] = cands[j], cands[i] })
+	for _, cnd := range cands {
+		if bump(cnd) {
+			if proto.Size(d) == proto.Size(prev) && !proto.Equal(d, prev) {
+				return d
+			}
+			return nil
+		}
+	}
+	return nil
+}
+
 // treeState: every file below root with a content hash.
 func treeState(root string) map[string]string {
 	out := map[string]string{}
@@ -207,6 +243,12 @@ func c19Case(c *core.C) {
 		id := c19ID(r)
 		noclobber := r.Intn(3) == 0
 		doc := c19Doc(r, id)
+		if r.Intn(2) == 0 {
+			if d2 := c19SameSize(r, model[id]); d2 != nil {
+				doc = d2
+				c.Cover("overwrite-with-a-different-document-of-the-same-encoded-size")
+			}
+		}
 		if id == "" && r.Intn(2) == 0 {
 			doc.Metadata = nil // no metadata message at all: still "a document without identifier"
 			c.Cover("store-without-metadata")
@@ -505,6 +547,12 @@ func c19InProcess(c *core.C, base, outer, store string, dirKind int) {
 		second := useSecond && r.Intn(2) == 0
 		if r.Intn(5) < 3 {
 			doc := c19Doc(r, id)
+			if r.Intn(2) == 0 {
+				if d2 := c19SameSize(r, model[id]); d2 != nil {
+					doc = d2
+					c.Cover("overwrite-with-a-different-document-of-the-same-encoded-size")
+				}
+			}
 			if id == "" && r.Intn(2) == 0 {
 				doc.Metadata = nil
 			}
